@@ -203,6 +203,23 @@ func carrierScreen(v interface{}) string {
 	return walk(reflect.ValueOf(v), "result", 0)
 }
 
+// values the encoder refuses before anything is written
+type c06Hidden struct {
+	A    int32
+	hits int32
+}
+
+var c06Refused = []struct {
+	name string
+	v    interface{}
+}{
+	{"struct with an unexported field", c06Hidden{A: 1, hits: 2}},
+	{"*struct with an unexported field", &c06Hidden{A: 1, hits: 2}},
+	{"chan", make(chan int)},
+	{"func", func() {}},
+	{"complex128", complex(1, 2)},
+}
+
 func TestC06(t *testing.T) {
 	r := rec.For("C06")
 	cfg := zoo.DefaultCfg()
@@ -436,6 +453,26 @@ func TestC06(t *testing.T) {
 		for i, v := range vals {
 			if byPeer {
 				break
+			}
+			// now and then the writer first offers the stream a value the encoder refuses outright (nothing is
+			// written): the stream then still consists of the values written, and they must read back as such
+			if i > 0 && rapid.IntRange(0, 5).Draw(rt, "refusedInBetween") == 0 {
+				bad := rapid.SampledFrom(c06Refused).Draw(rt, "refusedValue")
+				before := buf.Len()
+				var rerr error
+				if pv, st := guard(func() {
+					if enc != nil {
+						rerr = enc.WriteObject(bad.v)
+					} else {
+						rerr = ser.Write(bad.v)
+					}
+				}); pv != nil {
+					failf(rt, c, "C06 %s: write of %s between #%d and #%d panicked: %v [%s]", via, bad.name, i-1, i, pv, st)
+				}
+				if rerr == nil || buf.Len() != before {
+					rt.Skip("the value was accepted, or part of it reached the stream (C13's subject)")
+				}
+				r.Label("refused value in between: " + bad.name)
 			}
 			var err error
 			pv, st := guard(func() {
